@@ -46,6 +46,9 @@ static mut VEC_RESERVES: u32 = 0;
 static mut VEC_DROPS: u32 = 0;
 static mut VEC_DROP_ARGS: (usize, usize, usize) = (0, 0, 0);
 static mut VEC_BAD: bool = false;
+/// slots of the arena the plugin's allocator may hand out (the 8-slot arena of the insertion harnesses, or the large one)
+static mut VEC_ARENA_LEN: usize = ARENA;
+const BIG_ARENA: usize = 40;
 /// The plugin's allocator: "grows" inside its arena, exactly to the requested size.
 extern "C" fn plugin_vec_reserve(v: &mut CVec<u64>, additional: usize) -> usize {
     unsafe {
@@ -56,7 +59,7 @@ extern "C" fn plugin_vec_reserve(v: &mut CVec<u64>, additional: usize) -> usize 
         }
         let want = view.len + additional;
         if want > view.capacity {
-            if want > ARENA {
+            if want > VEC_ARENA_LEN {
                 VEC_BAD = true;
             } else {
                 view.capacity = want;
@@ -131,7 +134,7 @@ struct CSliceBoxView {
 /// reserve function, contents behave like a Vec, and the buffer is released exactly once
 /// through the plugin's drop function with (data, len, capacity).
 fn foreign_cvec<const IDX: usize>() {
-    unsafe { VEC_RESERVES = 0; VEC_DROPS = 0; VEC_BAD = false; }
+    unsafe { VEC_RESERVES = 0; VEC_DROPS = 0; VEC_BAD = false; VEC_ARENA_LEN = ARENA; }
     let a: u64 = nd::any();
     let b: u64 = nd::any();
     // the plugin's arena is stack memory: freeing or reallocating it with the host allocator
@@ -247,6 +250,72 @@ nd::harnesses! {
     #[kani::unwind(10)] fn c05_foreign_cvec_i0() { foreign_cvec::<0>() }
     #[kani::unwind(10)] fn c05_foreign_cvec_i1() { foreign_cvec::<1>() }
     #[kani::unwind(10)] fn c05_foreign_cvec_i2() { foreign_cvec::<2>() }
+
+    /// A foreign vector of ANY shape (capacity 0..=40 and length 0..=capacity both symbolic, over a 40-slot plugin arena):
+    /// two symbolic operations that need no growth (pop, push into spare room, reserve of what is already there, a read)
+    /// never reach the plugin's allocator nor the host's, leave buffer address and capacity alone - whatever the ratio
+    /// of length to capacity - and the release goes once through the plugin's function with (data, len, capacity).
+    #[kani::unwind(4)]
+    fn c05_foreign_cvec_any_shape_no_growth() {
+        unsafe { VEC_RESERVES = 0; VEC_DROPS = 0; VEC_BAD = false; VEC_ARENA_LEN = BIG_ARENA; }
+        let mut arena = [0u64; BIG_ARENA];
+        let cap = nd::range(0, BIG_ARENA);
+        let len = nd::range(0, BIG_ARENA);
+        nd::assume(len <= cap);
+        let last: u64 = nd::any();
+        if len > 0 { arena[len - 1] = last; }
+        unsafe { VEC_ARENA_PTR = arena.as_mut_ptr(); }
+        let view = CVecView { data: arena.as_mut_ptr(), len, capacity: cap,
+                              drop_fn: Some(plugin_vec_drop), reserve_fn: plugin_vec_reserve };
+        let mut v: CVec<u64> = unsafe { from_view(view) };
+        let data = v.as_ptr() as usize;
+        nd::cover!(cap >= 16 && len <= cap / 4, "large and mostly empty");
+        nd::cover!(cap >= 32 && len == cap, "large and full");
+        let mut l = len;
+        let mut top = last; // value of the element at l-1 (tracked only while known)
+        let mut known = len > 0;
+        let mut k = 0;
+        while k < 2 {
+            let op: u8 = nd::any();
+            nd::assume(op < 4);
+            match op {
+                0 => {
+                    let r = v.pop();
+                    if l == 0 { assert!(r.is_none()); } else {
+                        if known { assert!(r == Some(top), "pop returns the last element"); }
+                        l -= 1;
+                        known = false;
+                    }
+                }
+                1 => {
+                    if l < cap {
+                        let y: u64 = nd::any();
+                        v.push(y);
+                        l += 1; top = y; known = true;
+                    }
+                }
+                2 => {
+                    let spare = cap - l;
+                    v.reserve(if spare > 3 { 3 } else { spare });
+                }
+                _ => {
+                    if l > 0 && known { assert!(v[l - 1] == top); }
+                }
+            }
+            assert!(v.len() == l);
+            assert!(v.capacity() == cap, "an operation that needs no growth leaves the capacity alone");
+            assert!(v.as_ptr() as usize == data, "... and the buffer where the plugin put it");
+            unsafe { assert!(VEC_RESERVES == 0, "no growth requested: the plugin's allocator is not called") };
+            k += 1;
+        }
+        unsafe { assert!(VEC_DROPS == 0) };
+        drop(v);
+        unsafe {
+            assert!(!VEC_BAD);
+            assert!(VEC_DROPS == 1, "released exactly once through the creator's drop function");
+            assert!(VEC_DROP_ARGS == (data, l, cap), "... with (data, len, capacity)");
+        }
+    }
 
     /// A boxed slice made by the plugin.
     fn c05_foreign_cslicebox() {
